@@ -467,7 +467,62 @@ def build(entry, plan):
             doc.segs.append(mkseg(ge_seg, plan)); doc.nodes.append(ge_seg); doc.lpaths.append(tuple(L2))
         doc.segs.append(mkseg(iea_seg, plan)); doc.nodes.append(iea_seg); doc.lpaths.append(tuple(L1))
     envelope(doc, entry)
+    if 'pad' in plan:
+        apply_pad(doc, plan['pad'])
     return doc
+
+
+def concat(d1, d2):
+    """one file holding the interchanges of d1 followed by those of d2 (possibly of another map / version): loop
+    instance numbers of d2 continue those of d1, interchange control numbers are made distinct"""
+    d = Doc()
+    d.plan = d1.plan; d.entry = d1.entry
+    d.segs = [[list(v) if isinstance(v, list) else v for v in s] for s in d1.segs + d2.segs]
+    d.nodes = list(d1.nodes) + list(d2.nodes)
+    top = {}
+    for lp in d1.lpaths:
+        for path, n in lp:
+            top[path] = max(top.get(path, 0), n)
+    d.lpaths = list(d1.lpaths) + [tuple((path, n + top.get(path, 0)) for path, n in lp) for lp in d2.lpaths]
+    n1 = len([s for s in d1.segs if s[0] == 'ISA'])
+    k = 0
+    for s in d.segs[len(d1.segs):]:
+        if s[0] == 'ISA':
+            k += 1
+            s[13] = '%09d' % (n1 + k)
+        elif s[0] == 'IEA':
+            s[2] = '%09d' % (n1 + k)
+    return d
+
+
+def apply_pad(doc, pad):
+    """lengthen one free-text value near the start of the first set by `pad` characters (within its definition): slides
+    everything behind it, character by character, across the reader's buffer boundaries"""
+    started = False
+    for s, n in zip(doc.segs, doc.nodes):
+        if s[0] == 'ST':
+            started = True
+            continue
+        if not started or s[0] in ('SE', 'HL', 'LX'):
+            continue
+        for c in n.children:
+            if c.kind == 'ele' and not c.codes and not c.ext and not c.regex and c.usage != 'N' and c.seq < len(s) and s[c.seq] != '':
+                dt, mn, mx = G.dataele().get(c.de, ('', 0, 0))
+                if dt == 'AN' and mx >= 30 and mn <= 1:
+                    if 1 + pad > mx:
+                        raise Ungeneratable('pad %d exceeds %s' % (pad, c.id))
+                    s[c.seq] = 'A' * (1 + pad)
+                    return
+    raise Ungeneratable('no free-text element to pad')
+
+
+def plans_boundary(entry, thorough=False):
+    """conformant documents longer than two 8 KiB reads, one segment per line (LF / CRLF), slid across the read boundaries"""
+    if entry[4] not in (('834.4010.X095.A1.xml', '835.5010.X221.A1.xml', '837.4010.X098.A1.xml') if thorough else ('834.4010.X095.A1.xml',)):
+        return
+    for eol in ('\n', '\r\n'):
+        for pad in range(0, 30):
+            yield ('boundary:%s:pad%d' % ('LF' if eol == '\n' else 'CRLF', pad), {'sets': 160, 'pad': pad, 'eol': eol})
 
 
 def setv(s, i, v):
@@ -491,7 +546,8 @@ def envelope(doc, entry):
         if k == 'ISA':
             isa_n += 1; gs_in_isa = 0
             cur_isa = '%09d' % isa_n
-            s[1:] = ['00', ' ' * 10, '00', ' ' * 10, 'ZZ', 'SENDER'.ljust(15), 'ZZ', 'RECEIVER'.ljust(15), '040102', '1200',
+            q1, q2 = (getattr(doc, 'plan', None) or {}).get('isa_quals', ('ZZ', 'ZZ'))
+            s[1:] = ['00', ' ' * 10, '00', ' ' * 10, q1, 'SENDER'.ljust(15), q2, 'RECEIVER'.ljust(15), '040102', '1200',
                      'U' if icvn == '00401' else '^', icvn, cur_isa, '0', 'P', ':']
         elif k == 'IEA':
             s[1:] = [str(gs_in_isa), cur_isa]
